@@ -75,8 +75,8 @@ Lemma vnonneg_real_cap total tg g cap :
   vnonneg (real_cap total tg g cap).
 Proof.
   intros Ht Htg Hg Hc i. rewrite realcap_def. cbv zeta.
-  assert (H0 : 0 <= val0 (cadd (cinc i (cnth total i) (cnth tg i)) (cnth g i))).
-  { rewrite val0_cadd. pose proof (cdiff_vals i _ _ (Ht i) (Htg i)) as (_ & H & _).
+  assert (H0 : 0 <= val0 (cadd (cexc i (cnth total i) (cnth tg i)) (cnth g i))).
+  { rewrite val0_cadd, val0_cexc. pose proof (cdiff_vals i _ _ (Ht i) (Htg i)) as (_ & H & _).
     specialize (Hg i). lra. }
   destruct cap as [c|]; [|exact H0].
   apply cmin_inf_nonneg; [exact H0|]. intros y E. eapply cap_norm_nonneg; [|exact E]. apply Hc. reflexivity.
@@ -182,9 +182,9 @@ Proof.
   destruct Hs as (_ & Hg & _).
   assert (H1 : val0 (cnth (q_rcap q) i) <= qmax 0 (val0 (cnth total i) - S) + g).
   { unfold q, attr_of. cbn [q_rcap]. rewrite realcap_def. cbv zeta.
-    set (rc := cadd (cinc i (cnth total i) (cnth (total_guarantee ss) i)) (cnth (base_some (s_gua s)) i)).
+    set (rc := cadd (cexc i (cnth total i) (cnth (total_guarantee ss) i)) (cnth (base_some (s_gua s)) i)).
     assert (E : val0 rc == qmax 0 (val0 (cnth total i) - S) + g).
-    { unfold rc. rewrite val0_cadd, cinc_val, val0_base_some, val0_total_guarantee by auto. reflexivity. }
+    { unfold rc. rewrite val0_cadd, val0_cexc, cinc_val, val0_base_some, val0_total_guarantee by auto. reflexivity. }
     assert (R0 : 0 <= val0 rc).
     { rewrite E. specialize (Hg i). fold g in Hg. qcases; lra. }
     destruct (option_map base_some (s_cap s)); [|lra].
@@ -201,20 +201,25 @@ Definition badcap_spec : qspec :=
       [mkT 0 [Some 100; Some 100; Some 1]].
 
 Lemma deserved_le_capability_refuted :
-  exists total ss fuel D q c,
+  exists total ss fuel D q s c,
     vnonneg total /\ Forall spec_ok ss /\
     In q (out_qs (proportion fuel D total ss)) /\
-    cnth (q_rcap q) 0 = Some c /\ c < val0 (cnth (q_des q) 0).
+    In s ss /\ q_gua q = base_some (s_gua s) /\ s_cap s = Some c /\
+    cnth c 0 = Some 5 /\ 5 < val0 (cnth (q_des q) 0).
 Proof.
   exists [Some 100; Some 100; Some 10], [badcap_spec], 5%nat, 3%nat.
-  eexists. exists 5. split; [|split; [|split; [|split]]].
+  eexists. exists badcap_spec. eexists.
+  split; [|split; [|split; [|split; [|split; [|split; [|split]]]]]].
   - intro i. do 3 (destruct i as [|i]; [cbn; lra|]). destruct i; cbn; lra.
   - constructor; [|constructor]. unfold spec_ok, badcap_spec. cbn. split; [lia|]. split; [|split].
     + intro i. do 3 (destruct i as [|i]; [cbn; lra|]). destruct i; cbn; lra.
     + intros c E. inversion E; subst. intro i. do 3 (destruct i as [|i]; [cbn; lra|]). destruct i; cbn; lra.
     + constructor; [|constructor]. intro i. do 3 (destruct i as [|i]; [cbn; lra|]). destruct i; cbn; lra.
   - vm_compute. left. reflexivity.
+  - left. reflexivity.
   - vm_compute. reflexivity.
+  - reflexivity.
+  - reflexivity.
   - vm_compute. reflexivity.
 Qed.
 
@@ -272,9 +277,9 @@ Proof.
   destruct Hs as (_ & Hg & _).
   intros i c E. unfold attr_of in *. cbn [q_rcap q_gua] in *. rewrite val0_base_some.
   rewrite realcap_def in E. cbv zeta in E.
-  set (rc := cadd (cinc i (cnth total i) (cnth tg i)) (cnth (base_some (s_gua s)) i)) in E.
+  set (rc := cadd (cexc i (cnth total i) (cnth tg i)) (cnth (base_some (s_gua s)) i)) in E.
   assert (R : val0 (cnth (s_gua s) i) <= val0 rc).
-  { unfold rc. rewrite val0_cadd, val0_base_some.
+  { unfold rc. rewrite val0_cadd, val0_base_some, val0_cexc.
     pose proof (cdiff_vals i _ _ (Ht i) (Htg i)) as (_ & H & _). lra. }
   destruct (s_cap s) as [c0|] eqn:Ec; cbn [option_map] in E.
   - unfold cmin_inf in E. destruct rc as [x|]; [|discriminate]. cbn [val0] in R.
@@ -295,6 +300,90 @@ Proof.
   destruct Hin as (s & <- & Hs). apply filter_In in Hs. destruct Hs as (Hs & _).
   rewrite Forall_forall in Hss, Hg. apply attr_of_capped; auto.
   apply vnonneg_total_guarantee. apply Forall_forall. exact Hss.
+Qed.
+
+(* ---------- second audit N1: clause 2 at full strength, on deserved, no "missing = no obligation" ---------- *)
+(* realCapability has an entry in every dimension the cluster has (fix 019e7c9: UnreservedPart
+   keeps the dimension at zero; before it a scalar whose total was used up by guarantees
+   disappeared and the queue was unbounded there) *)
+Lemma rcap_present total tg g cap i t :
+  cnth total i = Some t -> exists c, cnth (real_cap total tg g cap) i = Some c.
+Proof.
+  intro Et. rewrite realcap_def. cbv zeta. rewrite Et.
+  assert (E : exists x, cexc i (Some t) (cnth tg i) = Some x).
+  { unfold cexc. destruct (cinc i (Some t) (cnth tg i)); eauto. }
+  destruct E as (x & ->).
+  assert (E2 : exists z, cadd (Some x) (cnth g i) = Some z) by (destruct (cnth g i); simpl; eauto).
+  destruct E2 as (z & ->).
+  destruct cap as [c|]; [|eauto]. unfold cmin_inf. destruct (cnth (cap_norm c) i); eauto.
+Qed.
+
+(* a queue record of the loop that still carries the static data of spec s *)
+Definition linked (total : vec) (ss : list qspec) (q : qattr) : Prop :=
+  exists s, In s ss /\ q_rcap q = q_rcap (attr_of total (total_guarantee ss) s)
+            /\ q_gua q = base_some (s_gua s) /\ upper_ok q.
+
+Lemma linked_upd total ss rem W q : linked total ss q -> linked total ss (upd rem W q).
+Proof.
+  intros (s & Hin & E1 & E2 & Hu). exists s.
+  destruct (upd_static rem W q) as (_ & F1 & _ & F3 & _). rewrite F1, F3.
+  split; [exact Hin|]. split; [exact E1|]. split; [exact E2|]. apply upper_ok_upd. exact Hu.
+Qed.
+
+Lemma linked_attrs total ss :
+  vnonneg total -> Forall spec_ok ss -> Forall (linked total ss) (attrs total ss).
+Proof.
+  intros Ht Hss. unfold attrs. apply Forall_forall. intros q Hin. apply in_map_iff in Hin.
+  destruct Hin as (s & <- & Hs). apply filter_In in Hs. destruct Hs as (Hs & _).
+  exists s. split; [exact Hs|]. split; [reflexivity|]. split; [reflexivity|].
+  assert (Hok : spec_ok s) by (rewrite Forall_forall in Hss; auto).
+  destruct (attr_of_ok total (total_guarantee ss) s Ht (vnonneg_total_guarantee ss Hss) Hok) as (H1 & H2 & _).
+  apply upper_ok_init; assumption.
+Qed.
+
+(* CLAUSE 2 for the model's entry point, every well-formed session, any fuel: in every
+   dimension the cluster has, a queue's deserved share is at most
+       max(own guarantee, total - guarantees of all OTHER queues)
+   and at most its own capability wherever that is bounded and not below its guarantee *)
+Theorem proportion_clause2 total ss fuel D :
+  vnonneg total -> Forall spec_ok ss ->
+  Forall (fun q => exists s, In s ss /\ q_gua q = base_some (s_gua s) /\
+    forall i t, cnth total i = Some t ->
+      let g := val0 (cnth (s_gua s) i) in
+      let S := qsumf (fun s' => val0 (cnth (s_gua s') i)) ss in
+      val0 (cnth (q_des q) i) <= qmax g (t - (S - g))
+      /\ (forall c y, s_cap s = Some c -> cnth (cap_norm (base_some c)) i = Some y -> g <= y ->
+                      val0 (cnth (q_des q) i) <= y))
+    (out_qs (proportion fuel D total ss)).
+Proof.
+  intros Ht Hss. unfold proportion.
+  assert (HL : Forall (linked total ss) (out_qs (loop fuel D (vfix D total) (attrs total ss) 0))).
+  { apply (loop_inv (fun qs _ => Forall (linked total ss) qs) D); [|apply linked_attrs; assumption].
+    intros rem0 qs0 H0 _. apply round_forall; [|exact H0]. intro q. apply linked_upd. }
+  apply Forall_forall. intros q Hq. rewrite Forall_forall in HL.
+  destruct (HL q Hq) as (s & Hin & E1 & E2 & Hu'). destruct Hu' as (_ & Hu).
+  exists s. split; [exact Hin|]. split; [exact E2|]. intros i t Et. cbv zeta.
+  set (g := val0 (cnth (s_gua s) i)). set (S := qsumf (fun s' => val0 (cnth (s_gua s') i)) ss).
+  assert (Hok : spec_ok s) by (rewrite Forall_forall in Hss; auto).
+  destruct Hok as (_ & Hg & Hcap & _).
+  destruct (rcap_present total (total_guarantee ss) (base_some (s_gua s))
+                         (option_map base_some (s_cap s)) i t Et) as (c0 & Ec0).
+  assert (Erc : cnth (q_rcap q) i = Some c0) by (rewrite E1; exact Ec0).
+  destruct (Hu i) as (Hc & _). specialize (Hc c0 Erc).
+  rewrite E2, val0_base_some in Hc. fold g in Hc.
+  destruct (realcap_reserves_others total ss s i Ht Hss Hin) as (R1 & _).
+  cbv zeta in R1. unfold attr_of in R1. cbn [q_rcap] in R1.
+  unfold attr_of in Ec0. cbn [q_rcap] in Ec0. rewrite Ec0, Et in R1. cbn [val0] in R1.
+  fold g in R1. fold S in R1.
+  assert (G0 : 0 <= g) by apply Hg.
+  split.
+  - revert Hc R1. qcases; intros; lra.
+  - intros c y Ecap Ey Hgy.
+    pose proof (realcap_le_capability total (total_guarantee ss) (base_some (s_gua s)) (base_some c) i y
+                  Ht (vnonneg_total_guarantee ss Hss) (vnonneg_base_some _ Hg)
+                  (vnonneg_base_some _ (Hcap c Ecap)) Ey) as Hle.
+    rewrite Ecap in Ec0. cbn [option_map] in Ec0. rewrite Ec0 in Hle. cbn [val0] in Hle.
+    revert Hc. qcases; intros; lra.
 Qed.
 
 (* ---------- W5: the capacity plugin's clamp (flat queues) ---------- *)
@@ -327,6 +416,46 @@ Corollary capacity_des_le_realcap total tg s i c :
 Proof.
   intros E Hc Hg. destruct (capacity_des_bounds total tg s i) as (_ & H & _).
   specialize (H c E Hc). revert H. qcases; lra.
+Qed.
+
+(* the same for the flat capacity plugin's clamp *)
+Theorem capacity_clause2 total ss s i t :
+  vnonneg total -> Forall spec_ok ss -> In s ss -> cnth total i = Some t ->
+  let d := snd (capacity_des total (total_guarantee ss) s) in
+  let g := val0 (cnth (s_gua s) i) in
+  let S := qsumf (fun s' => val0 (cnth (s_gua s') i)) ss in
+  val0 (cnth d i) <= qmax g (t - (S - g))
+  /\ (forall c y, s_cap s = Some c -> cnth (cap_norm (base_some c)) i = Some y -> g <= y ->
+                  val0 (cnth d i) <= y).
+Proof.
+  intros Ht Hss Hin Et d g S.
+  assert (Hok : spec_ok s) by (rewrite Forall_forall in Hss; auto).
+  destruct Hok as (_ & Hg & Hcap & _).
+  assert (Htg := vnonneg_total_guarantee ss Hss).
+  destruct (capacity_des_bounds total (total_guarantee ss) s i) as (_ & Hb & Erc).
+  destruct (rcap_present total (total_guarantee ss) (base_some (s_gua s))
+                         (option_map base_some (s_cap s)) i t Et) as (c0 & Ec0).
+  assert (Hrc0 : 0 <= c0).
+  { assert (N := vnonneg_real_cap total (total_guarantee ss) (base_some (s_gua s))
+                                    (option_map base_some (s_cap s)) Ht Htg (vnonneg_base_some _ Hg)).
+    assert (HC : forall c, option_map base_some (s_cap s) = Some c -> vnonneg c).
+    { intros c E. destruct (s_cap s) as [c1|]; [|discriminate]. inversion E; subst.
+      apply vnonneg_base_some. apply Hcap. reflexivity. }
+    specialize (N HC i). rewrite Ec0 in N. exact N. }
+  assert (Erc' : cnth (fst (capacity_des total (total_guarantee ss) s)) i = Some c0).
+  { rewrite Erc. unfold attr_of. cbn [q_rcap]. exact Ec0. }
+  specialize (Hb c0 Erc' Hrc0). fold d in Hb. rewrite val0_base_some in Hb. fold g in Hb.
+  destruct (realcap_reserves_others total ss s i Ht Hss Hin) as (R1 & _).
+  cbv zeta in R1. unfold attr_of in R1. cbn [q_rcap] in R1. rewrite Ec0, Et in R1. cbn [val0] in R1.
+  fold g in R1. fold S in R1.
+  assert (G0 : 0 <= g) by apply Hg.
+  split.
+  - revert Hb R1. qcases; intros; lra.
+  - intros c y Ecap Ey Hgy.
+    pose proof (realcap_le_capability total (total_guarantee ss) (base_some (s_gua s)) (base_some c) i y
+                  Ht Htg (vnonneg_base_some _ Hg) (vnonneg_base_some _ (Hcap c Ecap)) Ey) as Hle.
+    rewrite Ecap in Ec0. cbn [option_map] in Ec0. rewrite Ec0 in Hle. cbn [val0] in Hle.
+    revert Hb. qcases; intros; lra.
 Qed.
 
 (* ---------- W9: a different iteration order in every round ---------- *)
@@ -412,3 +541,11 @@ Lemma ex_result :
   | _ => False
   end.
 Proof. vm_compute. repeat split; try reflexivity; lia. Qed.
+
+Lemma ex_guard : Forall gua_le_cap ex_specs.
+Proof.
+  repeat (apply Forall_cons || apply Forall_nil); intros c i y E Hc; cbn in E; try discriminate.
+  inversion E; subst; clear E.
+  do 4 (destruct i as [|i]; [cbn in Hc; try discriminate; inversion Hc; subst; cbn; lra|]).
+  unfold cnth in Hc. rewrite nth_overflow in Hc by (cbn; lia). discriminate.
+Qed.
